@@ -203,7 +203,7 @@ class VideoPlayer(HTMLHandlerBase):
             title = stream_model.title
             if stream_model.timing_reference is None:
                 flask.flash(
-                    f'The timing reference needs to be set for stream "{current_stream.title}"',
+                    f'The timing reference needs to be set for stream "{stream_model.title}"',
                     "error",
                 )
                 return flask.redirect(flask.url_for("home"))
